@@ -18,7 +18,7 @@ import (
 // zz:noreplay the validators are summarised through engine-side overrides
 func ZZ_C18_config_security_group_bound() {
 	zzStubValidators()
-	zz.FixedMapOrder(true) // the walk order of the set is the subject of ZZ_C16_security_groups_stable_order, not of this bound
+	zz.FixedMapOrder(true)                     // the walk order of the set is the subject of ZZ_C16_security_groups_stable_order, not of this bound
 	n := 9 + zz.Fork("list.length.minus.9", 3) // 9, 10, 11 listed groups
 	conf := &Config{Version: "1"}
 	for i := 0; i < n; i++ {
